@@ -412,7 +412,9 @@ func pbuild(p pspec) *ring.PartitionRingDesc {
 		if del {
 			st = ring.OwnerDeleted
 		}
-		d.Owners[ownerIDs[i]] = ring.OwnerDesc{OwnedPartition: int32(i % 2), State: st, UpdatedTimestamp: int64(ts)}
+		// the partition an owner points to is part of its content and differs between its two timestamps
+		// (an owner re-assigned to another partition): the whole entry is one last-writer-wins register
+		d.Owners[ownerIDs[i]] = ring.OwnerDesc{OwnedPartition: int32((i + ts) % 2), State: st, UpdatedTimestamp: int64(ts)}
 	}
 	return d
 }
@@ -508,7 +510,7 @@ func TestC03Partitions(t *testing.T) {
 		np3, no3 = 1, 2
 		np2, no2 = 2, 2
 	}
-	rep.Bound = fmt.Sprintf("triples over %d partition(s) × %d owner(s), pairs over %d partitions × %d owner(s); partition = absent | state register (ts 1..2, table state or Deleted) × lock register (ts 0..2); owner = absent | ts 1..2 × (Active | Deleted)", np3, no3, np2, no2)
+	rep.Bound = fmt.Sprintf("triples over %d partition(s) × %d owner(s), pairs over %d partitions × %d owner(s); partition = absent | state register (ts 1..2, table state or Deleted) × lock register (ts 0..2); owner = absent | ts 1..2 × (Active | Deleted), pointing to a different partition at each timestamp", np3, no3, np2, no2)
 	rep.Rule = "real PartitionRingDesc.Merge(other,false) on fresh copies: idempotence, commutativity, associativity, delta sufficiency (also into A⊔X), nil change ⇒ unchanged, result ≡ per-register last-writer-wins reference (removal wins ties); distinct_nontrivial = distinct canonical merge results"
 	deadline := ev.Deadline(10 * time.Minute)
 	viol := func(kind, what string, specs ...pspec) {
